@@ -74,7 +74,7 @@ func ruleC03Emit(c *Checker) {
 			c.check(guarded(wh.Block(), exF), R, wname, fmt.Sprintf("WriteHeader %d guarded by not-excluded", i), pos, "only after the not-excluded edge of the entry's path evaluation", "an entry can be written without its path having been tested against the ignore rules")
 			for _, e := range append(append([]exclCall{}, plain...), dirForm...) {
 				for _, te := range e.ExT {
-					reach := reachFromEdge(te)
+					reach := p.reachFromEdgeC(te)
 					c.check(!reach[wh.Block()], R, wname, fmt.Sprintf("excluded edge cannot reach WriteHeader %d", i), p.Pos(e.Call.Pos()), "the excluded edge leads away from the header write", "an excluded path can still reach the header write")
 				}
 			}
